@@ -85,7 +85,7 @@ func enumC04(t *testing.T, tier string) []string {
 			}
 		}
 	}
-	vs := []string{"none", "none", "none"}
+	vs := []string{"none", "none", "none", "hello", "hello"}
 	for k := 1; k <= maxW+2; k++ {
 		vs = append(vs, "a"+strconv.Itoa(k), "b"+strconv.Itoa(k))
 	}
@@ -117,7 +117,7 @@ func setupC04(x *Ctx) {
 		o.writeFailAt, _ = strconv.Atoi(variant[1:])
 		o.failOnce = true
 	}
-	if x.Feat(FeatMoreInputs) && (variant == "" || variant == "none") && x.Chance("c04-hello-matrix", 0.3) {
+	if x.Feat(FeatMoreInputs) && (variant == "hello" || (variant == "" || variant == "none") && x.Chance("c04-hello-matrix", 0.3)) {
 		// one hello message drawn uniformly from all member combinations, delivered in a
 		// hello listen state (the cells the general generator reaches once in 1600 frames)
 		var cell string
@@ -128,7 +128,7 @@ func setupC04(x *Ctx) {
 	x.SigAdd("v=" + variant)
 	x.OnFinal(func() {
 		checkStateGraph(x, s.role, "U")
-		if variant != "" && variant != "none" && variant != "probe" {
+		if variant != "" && variant != "none" && variant != "probe" && variant != "hello" {
 			for _, e := range x.Events() {
 				if e.Kind == "tx-failed" {
 					x.NonTrivial()
